@@ -119,7 +119,7 @@ class Real:
                               "w_precision": torch.tensor(float(p["w"])),
                               "in_precision": torch.tensor(float(p["a"])),
                               "a_precision": torch.tensor(float(p["a"])),
-                              "w_theta_alpha": torch.tensor(1.0 / p["td"], dtype=dt),
+                              "w_theta_alpha": torch.tensor(1.0 / p["td"] if p["td"] else 0.0, dtype=dt),
                               "in_format": int, "w_format": int}
         if fn["l"] == "linear":
             sp.update({"in_features": cin, "out_features": cout, "output_shape": (1, cout_i)})
@@ -503,11 +503,73 @@ def life_scenarios_from_dump(path: str, maxlen: int, style: str) -> List[Dict[st
 
 
 # --------------------------------------------------------------------------------------------------
+# boundary / outside of the supported domain (module CostDomainMC): every TLC state with every input type
+# --------------------------------------------------------------------------------------------------
+def point_variants(fn: Dict[str, str], p: Dict[str, int]) -> List[Tuple[str, bool]]:
+    """(how precisions and the theta fraction are passed, does that type belong to the function's interface)."""
+    m = fn["m"]
+    if m not in RESTRICTED:
+        return [("tensor", True)]
+    integral = p["wf"] == 0 and p["af"] == 0
+    # MPIC reads the precisions with .item(): only 0-d tensors are in its interface; NE16 / DIANA compare with ==
+    # and their own unit tests pass python numbers
+    out = [("tensor", True), ("pyfloat", m not in MPIC)]
+    if integral and p["td"] in (0, 1):
+        out.append(("pyint", m not in MPIC))
+    return out
+
+
+def point_spec(real: Real, fn: Dict[str, str], p: Dict[str, int], var: str) -> Dict[str, Any]:
+    torch = real.torch
+    sp = real.spec(fn, p)
+    w, a = p["w"] + p["wf"] / 10.0, p["a"] + p["af"] / 10.0
+    th = 1.0 / p["td"] if p["td"] else 0.0
+    if var == "tensor":
+        vals = {"w_precision": torch.tensor(w), "in_precision": torch.tensor(a), "a_precision": torch.tensor(a),
+                "w_theta_alpha": torch.tensor(th, dtype=torch.float64)}
+    elif var == "pyfloat":
+        vals = {"w_precision": float(w), "in_precision": float(a), "a_precision": float(a), "w_theta_alpha": float(th)}
+    else:
+        vals = {"w_precision": int(p["w"]), "in_precision": int(p["a"]), "a_precision": int(p["a"]), "w_theta_alpha": int(th)}
+    sp.update(vals)
+    return sp
+
+
+def points_scenarios_from_dump(path: str) -> List[Dict[str, Any]]:
+    nodes, _, _ = tlc.parse_dot(path)
+    by_fn: Dict[str, List[Dict[str, int]]] = {}
+    for st in nodes.values():
+        by_fn.setdefault(json.dumps(st["fn"], sort_keys=True), []).append(st["p"])
+    scen = []
+    for k in sorted(by_fn):
+        fn = json.loads(k)
+        pts, var, strict = [], [], []
+        for q in sorted(by_fn[k], key=lambda d: json.dumps(d, sort_keys=True)):
+            for v, ok in point_variants(fn, q):
+                pts.append(q), var.append(v), strict.append(ok)
+        scen.append({"kind": "points", "fn": fn, "pts": pts, "var": var, "strict": strict})
+    return scen
+
+
+def points_execute(real: Real, sc: Dict[str, Any]) -> Dict[str, Any]:
+    fn = sc["fn"]
+    obs, pos = [], []
+    for q, v in zip(sc["pts"], sc["var"]):
+        o, ps, _ = real.evaluate_on(fn, point_spec(real, fn, q, v))
+        obs.append(o), pos.append(ps)
+    sc["n_raised"] = sum(1 for o in obs if o == [-1])
+    return {"kind": "points", "fn": fn, "pts": sc["pts"], "var": sc["var"], "strict": sc["strict"], "obs": obs, "pos": pos,
+            "unit": list(obs_unit(fn["m"]))}
+
+
+# --------------------------------------------------------------------------------------------------
 def execute(real: Real, sc: Dict[str, Any]) -> Dict[str, Any]:
     """Run one abstract scenario on the real code -> trace (what TLC sees)."""
     k = sc["kind"]
     if k == "life":
         return life_execute(real, sc)
+    if k == "points":
+        return points_execute(real, sc)
     if k == "chain":
         fn = sc["fn"]
         if (fn["m"], fn["l"], fn["pat"]) not in real.fns:
@@ -553,12 +615,14 @@ def _nontrivial(sc: Dict[str, Any]) -> bool:
         return bool(sc.get("varies")) and len(sc["xs"]) >= 2
     if sc["kind"] == "reject":
         return sc.get("n_raised", 0) > 0
-    return sc["kind"] in ("dw", "helper", "life")
+    return sc["kind"] in ("dw", "helper", "life", "points")
 
 
 def _n_points(sc: Dict[str, Any]) -> int:
     if sc["kind"] == "life":
         return 2 * sum(1 for a in sc["actions"] if a["a"] == "eval")
+    if sc["kind"] == "points":
+        return len(sc["pts"])
     return len(sc.get("xs", sc.get("pts", [0])))
 
 
@@ -613,6 +677,18 @@ def _self_test(traces: List[Dict[str, Any]], verdicts: List[str]) -> int:
         t11 = cp(lr)
         t11["ev"][-1].update(res=[0], fresh=[0])           # a rejected description accepted after a history
         bad.append(("C16.reject", t11))
+    pt = next((t for t in okt if t["kind"] == "points" and t["fn"]["m"] == "mpic_latency" and [-1] in t["obs"]), None)
+    if pt is not None:
+        t12 = cp(pt)
+        j = next(i for i, q in enumerate(t12["pts"]) if q["wf"] != 0 and q["a"] == 8 and q["af"] == 0)
+        t12["obs"][j], t12["pos"][j] = limbs(1234), True     # a fractional precision costed instead of rejected
+        bad.append(("C16.reject", t12))
+    pn = next((t for t in okt if t["kind"] == "points" and t["fn"]["m"] == "ne16_latency"), None)
+    if pn is not None:
+        t13 = cp(pn)
+        j = next(i for i, q in enumerate(t13["pts"]) if q["td"] == 0 and q["w"] == 8 and q["a"] == 8 and q["af"] == 0)
+        t13["obs"][j] = [-2]                                 # NaN at a theta fraction of exactly 0
+        bad.append(("C16.finite", t13))
     if not bad:
         return 0
     vs, _ = tlc.validate_traces("CostModelsTrace", "CostModelsTrace", [b for _, b in bad], workers=4)
@@ -664,12 +740,17 @@ def run(tier: str, seed: int, replay=None) -> int:
     life_cfgs = [("CostLifeMC_quick", 3)] + ([("CostLifeMC_thorough", 4)] if tier != "quick" else [])
     life_dumps: List[Tuple[str, int, int]] = []
     life_ready = threading.Event()
+    dom_dump: List[str] = []
 
     # two background threads, each with its OWN Run object for the bookkeeping (merged below; no shared counters)
     RA, RB = Run("C16", tier, seed), Run("C16", tier, seed)
 
     def _design_life() -> None:
         try:
+            # boundary / outside of the supported domain: one-step enumeration, replayed by the main thread
+            dot = tempfile.mktemp(prefix="c16-dom-", suffix=".dot", dir=tlc.scratch())
+            RA.design("CostDomainMC", "CostDomainMC_quick", workers=4, dump_dot=dot)
+            dom_dump.append(dot)
             # histories on one shared description: enumerated first, the dump is replayed by the main thread
             for cfg, maxlen in life_cfgs:
                 dot = tempfile.mktemp(prefix="c16-life-", suffix=".dot", dir=tlc.scratch())
@@ -679,6 +760,9 @@ def run(tier: str, seed: int, replay=None) -> int:
             # sanity: the three impure variants and "no evaluation is ever rejected" must FAIL
             for cfg in ("CostLifeMC_setdefault", "CostLifeMC_memo_id", "CostLifeMC_pop", "CostLifeMC_rejects"):
                 RA.design("CostLifeMC", cfg, expect_ok=False, workers=2)
+            # sanity: int() coercion before the table look-up / NE16 without the theta = 0 guard must FAIL
+            RA.design("CostDomainMC", "CostDomainMC_trunc", expect_ok=False, workers=2)
+            RA.design("CostDomainMC", "CostDomainMC_div0", expect_ok=False, workers=2)
             # non-vacuity: the grids reach the plateaus of the tile functions -> the strict property must fail;
             # for fractional arguments the ceiling idioms are not exact ceilings -> that invariant must fail
             RA.design("CostModelsMC", "CostModelsMC_strict", expect_ok=False, workers=2)
@@ -736,12 +820,18 @@ def run(tier: str, seed: int, replay=None) -> int:
         lscen += part
         if maxlen == 3 and tier != "quick":       # descriptions that also carry diana's own key, on the histories that ask diana
             lscen += [dict(sc, style="both") for sc in part if any(a.get("m") == "diana_latency" for a in sc["actions"])]
+    if not dom_dump:
+        raise tlc.MachineryError("CostDomainMC produced no dump")
+    pscen = points_scenarios_from_dump(dom_dump[0])
+    R.extra["boundary_domain_points"] = sum(len(sc["pts"]) for sc in pscen)
+    lscen += pscen                                  # validated together with the histories
     ltraces = [execute(real, sc) for sc in lscen]
-    R.extra["histories_on_shared_description"] = len(lscen)
+    R.extra["histories_on_shared_description"] = sum(1 for sc in lscen if sc["kind"] == "life")
     R.extra["evaluations_in_histories"] = sum(_n_points(sc) for sc in lscen)
     n_pts += R.extra["evaluations_in_histories"]
     R.extra["points_evaluated_on_real_code"] = n_pts
-    ex = next(i for i, sc in enumerate(lscen) if sc["actions"][0].get("m") == "diana_latency" and sc["actions"][1].get("f") == "a")
+    ex = next(i for i, sc in enumerate(lscen) if sc["kind"] == "life" and sc["actions"][0].get("m") == "diana_latency"
+              and sc["actions"][1].get("f") == "a")
     R.sample({"scenario": {k: lscen[ex][k] for k in ("l", "style", "init", "actions")}, "observed": ltraces[ex]["ev"]})
 
     for th in threads:
